@@ -48,6 +48,7 @@ def gen_case(r, front, framing, uniq, data_only=False, max_per_read=3, allow_for
         layout['defaults_opposite'] = True
     if r.random() < 0.15:
         layout['share_init_lists'] = True
+    defaults_unit = r.choice(hosted) if (r.random() < 0.15 and framing != 'tls') else None
     n = nreq or r.choice([1, 3, 8, 16])
     frames = []
     for i in range(n):
@@ -70,7 +71,10 @@ def gen_case(r, front, framing, uniq, data_only=False, max_per_read=3, allow_for
         kk = k if r.random() < 0.7 else r.randint(1, max_per_read)
         reads.append(frames[i:i + kk])
         i += kk
-    return {'front': front, 'framing': framing, 'layout': layout, 'flags': flags, 'reads': reads}
+    case = {'front': front, 'framing': framing, 'layout': layout, 'flags': flags, 'reads': reads}
+    if defaults_unit is not None:
+        case['defaults_unit'] = defaults_unit
+    return case
 
 
 def add_failing(r, case, k):
@@ -94,6 +98,9 @@ def add_delivery(r, case):
             burst.append(min(k, left))
             left -= burst[-1]
         d['burst'] = burst
+    if case['front'] == 'sync-tcp' and r.random() < 0.5:
+        # idle periods longer than the receive timeout of the server's sockets (the handler sees socket.timeout and must go on)
+        d['timeouts'] = sorted(set(r.randrange(n + 1) for _ in range(r.randint(1, 3))))
     case['delivery'] = d
     return case
 
@@ -176,7 +183,11 @@ def expectations(case, model, new_units=None):
         for unit, tid, m in rd:
             kind, val = model.react(unit, m, broadcast_enable=flags.get('broadcast_enable', False),
                                     ignore_missing=flags.get('ignore_missing_slaves', False))
-            e = {'kind': kind, 'unit': unit, 'tid': tid, 'fc': m['fc'], 'pdu': S.encode(val) if kind == 'reply' else None, 'why': val if kind == 'silent' else None}
+            try:
+                pdu = S.encode(val) if kind == 'reply' else None
+            except Exception:  # noqa
+                kind, pdu = 'unjudged', None           # (a store cell that no response can carry: C17 compares the front-ends only)
+            e = {'kind': kind, 'unit': unit, 'tid': tid, 'fc': m['fc'], 'pdu': pdu, 'why': val if kind == 'silent' else None}
             if deaf:
                 e['kind'] = 'unjudged'
             if kind == 'silent' and val == 'listen-only':
@@ -187,6 +198,15 @@ def expectations(case, model, new_units=None):
 
 def execute(case):
     """-> dict(res, model, blocks, reads, out_frames, parse_error, exp)"""
+    if case.get('defaults_unit') is not None and not case.get('_du'):
+        # the application set a process-wide default unit id other than 0 at start-up (explicit ids everywhere must still win)
+        from pymodbus.constants import Defaults as _Defaults
+        old = _Defaults.UnitId
+        _Defaults.UnitId = int(case['defaults_unit'])
+        try:
+            return execute(dict(case, _du=True))
+        finally:
+            _Defaults.UnitId = old
     repo.reset_globals()
     ctx, model, blocks = SM.build(case['layout'])
     reads = build_reads(case)
@@ -205,7 +225,12 @@ def execute(case):
                     fed.append(ev)
             fed.append(chunk)
     else:
-        fed = reads
+        fed = list(reads)
+    if case.get('delivery', {}).get('timeouts') and case['front'] == 'sync-tcp':
+        import socket as _socket
+        for idx in sorted(case['delivery']['timeouts'], reverse=True):
+            pos = [k for k, x in enumerate(fed) if isinstance(x, (bytes, bytearray))]
+            fed.insert(pos[idx] if idx < len(pos) else len(fed), _socket.timeout('timed out'))
     if case.get('failing'):
         SM.make_failing(blocks[int(case['failing'][0])], case['failing'][1])
     res = FE.feed(case['front'], case['framing'], ctx, fed, **dict(case['flags'], **case.get('delivery', {})))
@@ -247,7 +272,8 @@ def execute(case):
                 want = senders.get(fs[0].tid)
                 if want is not None and addr not in want:
                     err = err or 'answer to request tid=%s sent to %r instead of its sender %r' % (fs[0].tid, addr, sorted(want))
-    exp = expectations(case, model, new_units)
+    # (no_model: the stores hold what the register-file model does not describe - the caller compares front-ends only)
+    exp = None if case.get('no_model') else expectations(case, model, new_units)
     repo.reset_globals()
     return {'res': res, 'model': model, 'blocks': blocks, 'reads': reads, 'out_frames': frames, 'parse_error': err, 'exp': exp}
 
